@@ -8,6 +8,7 @@ package treeauth
 // driver intended.
 
 import (
+	"crypto/sha256"
 	"encoding/json"
 	"fmt"
 	"math/rand"
@@ -33,9 +34,12 @@ type logMember struct {
 	Snap  int    `json:"snap"`
 	CidOk bool   `json:"cidOk"`
 	SigOk bool   `json:"sigOk"`
+	Tw    int    `json:"tw"`
 }
 
 type recordRun struct {
+	payloads map[[32]byte]int // hash of a signed payload -> specification id of the genuine change
+	lastRaw  *treechangeproto.RawTreeChangeWithId // the raw change handed to the tree last
 	rnd   *rand.Rand
 	rep   *vfutil.Report
 	wk    *worker
@@ -51,7 +55,7 @@ type recordRun struct {
 }
 
 var allEvents = []string{"addW", "addR", "joinW", "req", "accW", "promote", "demote", "remove", "other"}
-var allMuts = []string{"bytes", "bytesReid", "id", "idDup", "swap", "unsigned"}
+var allMuts = []string{"bytes", "bytesReid", "id", "idDup", "swap", "unsigned", "twin", "twin"}
 
 func (rr *recordRun) emit(v any) { rr.lines = append(rr.lines, v) }
 
@@ -130,9 +134,16 @@ func (rr *recordRun) stepLocal() {
 	aw := tw.aw
 	au := []string{"S", "S", "W", "X"}[rr.rnd.Intn(4)]
 	before := tw.observe()
-	tw.tree.Lock()
-	res, err := tw.tree.AddContent(bg, objecttree.SignableChangeContent{Data: uniq(), Key: aw.k.of(au).SignKey, ShouldBeEncrypted: tw.filt, Timestamp: 3, DataType: "verif"})
-	tw.tree.Unlock()
+	var (
+		res objecttree.AddResult
+		err error
+	)
+	callCode("AddContent", func() {
+		tw.tree.Lock()
+		defer tw.tree.Unlock()
+		res, err = tw.tree.AddContent(bg, objecttree.SignableChangeContent{Data: uniq(), Key: aw.k.of(au).SignKey, ShouldBeEncrypted: tw.filt, Timestamp: 3, DataType: "verif"})
+	})
+	rr.lastRaw = nil
 	after := tw.observe()
 	rr.plan = append(rr.plan, "local:"+au)
 	model := rr.next
@@ -172,6 +183,12 @@ func (rr *recordRun) describe(model int, raw *treechangeproto.RawTreeChangeWithI
 	switch rd.account {
 	case "S", "W":
 		m.Au, m.Named = rd.account, rd.account
+	}
+	// the signed payload of a change handed out earlier, without a signature of its own
+	if outer, _, err := splitRaw(raw.RawChange); err == nil && outer != nil && len(outer.Signature) == 0 {
+		if g, ok := rr.payloads[sha256.Sum256(outer.Payload)]; ok && g != model {
+			m.Tw = g
+		}
 	}
 	if abs := tw.aw.absIndex(rd.aclHead); abs >= tw.aw.pre {
 		m.Cite = abs - tw.aw.pre
@@ -238,7 +255,21 @@ func (rr *recordRun) stepDeliver() {
 			if mc == "idDup" {
 				mm.Id = tw.rev[before.iter[rnd.Intn(len(before.iter))]]
 			}
-			raw, what = tw.mutate(mm, mc, rnd.Intn(4000), raw)
+			if mc == "twin" {
+				// the twin of what the builder unmarshals just before: the previous member of this
+				// batch, or the change handed to the tree last
+				genuine := rr.lastRaw
+				if k > 0 {
+					genuine = batch[k-1]
+				}
+				if genuine != nil && genuine.Id != tw.root.Id {
+					if _, _, err := splitRaw(genuine.RawChange); err == nil {
+						raw, what = twinOf(genuine, rnd.Intn(2))
+					}
+				}
+			} else {
+				raw, what = tw.mutate(mm, mc, rnd.Intn(4000), raw)
+			}
 			what = mc + ": " + what
 		}
 		if _, held := tw.rev[raw.Id]; !held {
@@ -267,10 +298,19 @@ func (rr *recordRun) deliver(batch []*treechangeproto.RawTreeChangeWithId, model
 			order[i], order[j] = order[j], order[i]
 		}
 	}
+	// remember the signed payloads handed out (a later signature-less copy is a "twin")
+	for i, raw := range deliver {
+		if outer, _, err := splitRaw(raw.RawChange); err == nil && outer != nil && len(outer.Signature) > 0 {
+			if _, known := rr.payloads[sha256.Sum256(outer.Payload)]; !known {
+				rr.payloads[sha256.Sum256(outer.Payload)] = order[i]
+			}
+		}
+	}
 	logged := make([]logMember, 0, len(deliver))
 	for i, raw := range deliver {
 		logged = append(logged, rr.describe(order[i], raw))
 	}
+	rr.lastRaw = deliver[len(deliver)-1]
 	rr.plan = append(rr.plan, fmt.Sprintf("deliver(%s):%v", mode, descr))
 	var (
 		res objecttree.AddResult
@@ -282,8 +322,7 @@ func (rr *recordRun) deliver(batch []*treechangeproto.RawTreeChangeWithId, model
 				if hb, ok := p.(harnessBroken); ok {
 					panic(hb)
 				}
-				err = fmt.Errorf("panic: %v", p)
-				rr.violate("panic-in-AddRawChanges|recorded", fmt.Sprintf("AddRawChanges panicked: %v (%v)", p, descr))
+				panic(codePanic{"AddRawChanges", fmt.Sprintf("%v (batch %v)", p, descr)})
 			}
 		}()
 		tw.tree.Lock()
@@ -355,16 +394,19 @@ func (rr *recordRun) stepReopen() {
 		tr  objecttree.ObjectTree
 		err error
 	)
-	switch {
-	case tw.filt && tw.flavour == "emptydata":
-		tr, err = objecttree.BuildEmptyDataKeyFilterableObjectTree(tw.store, tw.aw.acl)
-	case tw.filt:
-		tr, err = objecttree.BuildKeyFilterableObjectTree(tw.store, tw.aw.acl)
-	case tw.flavour == "emptydata":
-		tr, err = objecttree.BuildEmptyDataObjectTree(tw.store, tw.aw.acl)
-	default:
-		tr, err = objecttree.BuildObjectTree(tw.store, tw.aw.acl)
-	}
+	callCode("BuildObjectTree(reopen)", func() {
+		switch {
+		case tw.filt && tw.flavour == "emptydata":
+			tr, err = objecttree.BuildEmptyDataKeyFilterableObjectTree(tw.store, tw.aw.acl)
+		case tw.filt:
+			tr, err = objecttree.BuildKeyFilterableObjectTree(tw.store, tw.aw.acl)
+		case tw.flavour == "emptydata":
+			tr, err = objecttree.BuildEmptyDataObjectTree(tw.store, tw.aw.acl)
+		default:
+			tr, err = objecttree.BuildObjectTree(tw.store, tw.aw.acl)
+		}
+	})
+	rr.lastRaw = nil
 	rr.plan = append(rr.plan, "reopen")
 	if err != nil {
 		rr.violate("stored-tree-does-not-reopen", fmt.Sprintf("a tree the code accepted change by change cannot be built again from its own storage: %v (timeline %v)", err, tw.aw.events))
@@ -381,7 +423,18 @@ func (rr *recordRun) stepReopen() {
 }
 
 func (rr *recordRun) run(steps int) {
-	kind := []string{"signed", "signed", "derived", "reduced"}[rr.rnd.Intn(4)]
+	defer func() {
+		if p := recover(); p != nil {
+			cp, ok := p.(codePanic)
+			if !ok {
+				panic(p)
+			}
+			// the run ends here; what was logged so far is still validated
+			rr.violate("panic-in-"+cp.where, fmt.Sprintf("the code under test panicked in %s: %v", cp.where, cp.val))
+		}
+	}()
+	rr.payloads = map[[32]byte]int{}
+	kind := []string{"signed", "signed", "derived", "reduced", "grown"}[rr.rnd.Intn(5)]
 	filt := rr.rnd.Intn(4) == 0
 	flavour := []string{"full", "emptydata"}[rr.rnd.Intn(2)]
 	aw := newAclWorld()
